@@ -222,4 +222,52 @@ theorem iterFrom_mem (r : Range) : ∀ (fuel : Nat) (cur : Int) (l : List Int), 
       simp only [hc', Bool.false_eq_true, if_false, Option.some.injEq] at h
       subst h; cases hx
 
+/-! ### termination: `len + 1` iterations suffice -/
+
+theorem iterFrom_fuel_pos (r : Range) (hs : 0 < r.step) : ∀ (fuel : Nat) (cur : Int),
+    (r.lenFrom cur).toNat < fuel → ∃ l, r.iterFrom fuel cur = some l := by
+  intro fuel
+  induction fuel with
+  | zero => intro cur h; omega
+  | succ fuel ih =>
+    intro cur h
+    simp only [Range.iterFrom]
+    by_cases hc : r.cond cur = true
+    · simp only [hc, if_true]
+      have h1 := lenFrom_pos_of_cond r hs cur hc
+      have h2 := lenFrom_step r hs cur
+      obtain ⟨l, hl⟩ := ih (cur + r.step) (by omega)
+      exact ⟨cur :: l, by rw [hl]; rfl⟩
+    · have hc' : r.cond cur = false := by simpa using hc
+      exact ⟨[], by simp [hc']⟩
+
+/-- **the loop of `__iter__` ends**: started at `cur`, it returns within `lenFrom cur + 1` evaluations of its condition,
+for either sign of the step -/
+theorem iterFrom_fuel (r : Range) (hs : r.step ≠ 0) (fuel : Nat) (cur : Int)
+    (h : (r.lenFrom cur).toNat < fuel) : ∃ l, r.iterFrom fuel cur = some l := by
+  rcases lt_or_gt_of_ne hs with hneg | hpos
+  · have hp : 0 < r.mirror.step := by simp [Range.mirror]; omega
+    obtain ⟨l, hl⟩ := iterFrom_fuel_pos r.mirror hp fuel (-cur) (by rw [mirror_lenFrom r hneg]; exact h)
+    rw [mirror_iterFrom r hneg] at hl
+    cases hr : r.iterFrom fuel cur with
+    | none => rw [hr] at hl; simp at hl
+    | some l' => exact ⟨l', rfl⟩
+  · exact iterFrom_fuel_pos r hpos fuel cur h
+
+/-- more fuel never changes the result -/
+theorem iterFrom_mono (r : Range) : ∀ (fuel : Nat) (cur : Int) (l : List Int), r.iterFrom fuel cur = some l →
+    r.iterFrom (fuel + 1) cur = some l := by
+  intro fuel
+  induction fuel with
+  | zero => intro cur l h; simp [Range.iterFrom] at h
+  | succ fuel ih =>
+    intro cur l h
+    rw [Range.iterFrom] at h ⊢
+    by_cases hc : r.cond cur = true
+    · simp only [hc, if_true, Option.map_eq_some_iff] at h ⊢
+      obtain ⟨l', hl', rfl⟩ := h
+      exact ⟨l', ih _ _ hl', rfl⟩
+    · have hc' : r.cond cur = false := by simpa using hc
+      simpa [hc'] using h
+
 end BeyondVerif.Date
